@@ -19,6 +19,7 @@ import Proofs.SemaphoreCaller
 import Proofs.SemaphoreSysLive
 import Proofs.SemaphoreQueue
 import Proofs.SemaphoreRefresh
+import Proofs.SemaphoreStanding
 import Gen.Facts
 
 namespace Props.C12
@@ -497,11 +498,16 @@ theorem normalize_idempotent (c : LocalCfg) (hc : Sane c) (m1 v1 m2 v2 : Int) (r
         split at hz <;> omega
       · exact reqV_fix c v2 _ _ _ hz (fun h => absurd h hv) (fun _ => hb)
 
-/-- **Clamped requests fit every semaphore**, so by `local_every_schedule_finishes`
-every such job runs: with a vmem limit not below the memory limit and a process
-semaphore of at least `procsPerJob + maxCores`, the four amounts `Enqueue`
-acquires for ANY request (zero, adaptive, oversized) are non-negative and within
-the sizes `setupSemaphores` gives the semaphores. -/
+/-- **Clamped requests fit every semaphore — the configuration with all four
+semaphores** (vmem limit configured and not below the memory limit, process
+semaphore present); the general statement, including the default configuration
+without a vmem semaphore, is `normalized_amounts_fit_every_configuration`.
+`procs` is what the process semaphore has LEFT for jobs,
+`rlimMax - startingThreadCount` (mrp's own standing reservation is never
+released: `standing_reservation_is_a_smaller_semaphore`), not its `maxSize`:
+with `procsPerJob + maxCores` within that, the four amounts `Enqueue` acquires
+for ANY request (zero, adaptive, oversized) are non-negative and within the
+sizes, so by `local_every_schedule_finishes` every such job runs. -/
 theorem normalized_amounts_fit (c : LocalCfg) (hc : Sane c) (hv : 0 < c.maxVmemMB)
     (hvm : c.maxMemGB * 1024 ≤ c.maxVmemMB) (procs : Int) (hp : procsPerJob + c.maxCores ≤ procs)
     (mc vc : Int) (r : Req) :
@@ -525,6 +531,120 @@ theorem normalized_amounts_fit (c : LocalCfg) (hc : Sane c) (hv : 0 < c.maxVmemM
     rcases i with _ | _ | _ | _ | i <;> simp at hi <;> subst hi <;> simp <;> omega
   · intro s
     rcases s with _ | _ | _ | _ | s <;> simp <;> omega
+
+/-- **Every configuration** (supersedes the four-semaphore statement above:
+no vmem semaphore — the default without `--localvmem` under an unlimited
+`ulimit -v` — and/or no process semaphore included).  For a sane configuration,
+with the vmem limit (if there is one) at least the memory limit, and with
+`procsPerJob + maxCores` within what the process rlimit leaves for jobs (if
+there is a process semaphore; `procsLeft = rlimMax - startingThreadCount`, see
+`standing_reservation_is_a_smaller_semaphore`): the amounts `Enqueue` acquires
+for ANY request are non-negative and fit the sizes of the semaphores that
+exist — so by `local_every_schedule_finishes` every such job runs. -/
+theorem normalized_amounts_fit_every_configuration (c : LocalCfg) (hc : Sane c)
+    (hvm : 0 < c.maxVmemMB → c.maxMemGB * 1024 ≤ c.maxVmemMB)
+    (procsLeft : Option Int) (hp : ∀ p, procsLeft = some p → procsPerJob + c.maxCores ≤ p)
+    (mc vc : Int) (r : Req) :
+    let a := acquireAmounts (normalize c mc vc r)
+    fitsSizes (localAmounts c procsLeft.isSome a) (localSizes c procsLeft) ∧
+    (∀ s, 0 ≤ (localAmounts c procsLeft.isSome a).getD s 0) := by
+  have h := clamp_le_limits c hc mc vc r
+  simp only at h
+  obtain ⟨h1, h2, h3, h4, h5⟩ := h
+  have e1 : Int.tdiv ((normalize c mc vc r).centi + 99) 100 = ((normalize c mc vc r).centi + 99) / 100 :=
+    Int.tdiv_eq_ediv_of_nonneg (by omega)
+  by_cases hv : 0 < c.maxVmemMB
+  · have hv3 := vmem_never_rejected_partial c hc mc vc r hv (hvm hv)
+    obtain ⟨h6, _⟩ := h5 hv
+    have e2 : Int.tdiv (normalize c mc vc r).vmemMb 1024 = (normalize c mc vc r).vmemMb / 1024 :=
+      Int.tdiv_eq_ediv_of_nonneg (by omega)
+    simp only [acquireAmounts] at hv3 ⊢
+    rw [e1, e2] at *
+    unfold procsPerJob at *
+    cases procsLeft with
+    | none =>
+      simp only [localAmounts, localSizes, hv, if_true, Option.isSome_none, Bool.false_eq_true, if_false,
+        Option.toList_none, List.append_nil, List.cons_append, List.nil_append]
+      constructor
+      · intro i m hi
+        rcases i with _ | _ | _ | i <;> simp at hi <;> subst hi <;> simp <;> omega
+      · intro s
+        rcases s with _ | _ | _ | s <;> simp <;> omega
+    | some p =>
+      have hp' := hp p rfl
+      simp only [localAmounts, localSizes, hv, if_true, Option.isSome_some, Option.toList_some,
+        List.cons_append, List.nil_append]
+      constructor
+      · intro i m hi
+        rcases i with _ | _ | _ | _ | i <;> simp at hi <;> subst hi <;> simp <;> omega
+      · intro s
+        rcases s with _ | _ | _ | _ | s <;> simp <;> omega
+  · simp only [acquireAmounts]
+    rw [e1]
+    unfold procsPerJob at *
+    cases procsLeft with
+    | none =>
+      simp only [localAmounts, localSizes, hv, if_false, Option.isSome_none, Bool.false_eq_true,
+        Option.toList_none, List.append_nil]
+      constructor
+      · intro i m hi
+        rcases i with _ | _ | i <;> simp at hi <;> subst hi <;> simp <;> omega
+      · intro s
+        rcases s with _ | _ | s <;> simp <;> omega
+    | some p =>
+      have hp' := hp p rfl
+      simp only [localAmounts, localSizes, hv, if_false, Option.isSome_some, Option.toList_some,
+        List.append_nil, List.cons_append, List.nil_append, if_true]
+      constructor
+      · intro i m hi
+        rcases i with _ | _ | _ | i <;> simp at hi <;> subst hi <;> simp <;> omega
+      · intro s
+        rcases s with _ | _ | _ | s <;> simp <;> omega
+
+/-! ## The process semaphore's standing reservation
+
+`setupSemaphores`: `procsSem = NewResourceSemaphore(rlimMax)`, then
+`procsSem.Acquire(startingThreadCount)` for mrp itself — never released. -/
+
+/-- the process semaphore after `setupSemaphores` (with `UpdateSize(rlimCur)`) is
+the semaphore of size `rlimMax - 45` "shifted" by a standing reservation of 45 -/
+theorem procs_semaphore_after_setup (rmax rcur : Int) (h : startingThreadCount ≤ rmax) :
+    (run (Sem.init rmax) [.acquire 0 startingThreadCount, .updSize rcur]).1
+      = (⟨rmax - startingThreadCount, rcur - startingThreadCount, 0, []⟩ : Sem).shift startingThreadCount := by
+  have hfit : startingThreadCount ≤ rmax - 0 := by omega
+  simp only [run, step, Sem.init, hfit, List.isEmpty_nil, and_self, if_true, Sem.setCur, Sem.wake, runJobs,
+    Sem.shift]
+  split <;> simp <;> omega
+
+/-- **A standing reservation makes a smaller semaphore.**  For every sequence
+of `Acquire`/`Release` calls (the client protocol of `Enqueue`) in which no
+request lies strictly between the smaller size `m` and the real maximum `m + d`,
+and no release is "bad": the semaphore of size `m + d` with `d` reserved for
+ever grants, queues and refuses exactly like the semaphore of size `m` — same
+events, same queue, reservations larger by `d`.  So the never-stall theorems
+(`local_every_schedule_finishes`, `normalized_amounts_fit_every_configuration`)
+apply to the process semaphore with the size `rlimMax - startingThreadCount`. -/
+theorem standing_reservation_is_a_smaller_semaphore (s : Sem) (d : Int) (hd : 0 ≤ d)
+    (ops : List SemOp) (hops : ∀ op ∈ ops, op.plain s.max d)
+    (hp : hasPanic (run s ops).2 = false) :
+    run (s.shift d) ops = ((run s ops).1.shift d, (run s ops).2) :=
+  run_shift d hd ops s hops hp
+
+/-- **… except for a request between the two sizes** (negative witness; audit
+second-pass MEDIUM-1).  `ulimit -u 60`, one core: the job needs 15 + 1 = 16
+processes; 16 ≤ maxSize = 60, so `Acquire` does not refuse it, but only
+60 - 45 = 15 can ever be free: it is queued with `curSize = maxSize` and nobody
+left to release anything — it waits for ever (the smaller semaphore of size 15
+would have refused it).  The Go code only prints "The current process count
+limit … is low".  Replayed on the real code by the refresh workers (uid nobody,
+RLIMIT_NPROC lowered): documented limit, not a configured martian limit. -/
+theorem standing_reservation_parks_request_between_sizes :
+    let g := (grun (G.init 60) [.acquire 0 startingThreadCount, .updSize 60, .acquire 1 16]).1
+    g.sem.waiters = [(1, 16)] ∧ g.sem.cur = 60 ∧ g.sem.max = 60 ∧ g.held = [(0, 45)] ∧
+    (step (Sem.init 15) (.acquire 1 16)).2 = [.reject 1 16] ∧
+    ¬ (SemOp.acquire 1 16).plain 15 45 := by
+  refine ⟨by decide, by decide, by decide, by decide, by decide, ?_⟩
+  simp [SemOp.plain]
 
 /-! ## Regenerated obligations (jobmanager_local.go as it is now) -/
 
@@ -1285,6 +1405,13 @@ example :
     s.max ≤ Martian.SemaphoreRefresh.ceilMB o.actualFree + Martian.SemaphoreRefresh.ceilMB o.rss ∧
     NoLost s ∧
     (step s (Martian.SemaphoreRefresh.refreshMemOp o)).2 = [.grant 3 512, .ret 47955] := by decide
+
+/-- the default configuration (no vmem semaphore) with a process rlimit of 4096:
+three semaphores, an over-limit request is clamped into them -/
+example :
+    let c : LocalCfg := ⟨4, 8, 0, 1, 1, 0⟩
+    Sane c ∧ localSizes c (some (4096 - startingThreadCount)) = [400, 8192, 4051] ∧
+    localAmounts c true (acquireAmounts (normalize c 8192 0 ⟨700, 20000, 0⟩)) = [400, 8192, 19] := by decide
 
 /-- an update that grows the size by 1 wakes the waiter that now fits -/
 example : observedSize ⟨8192, 8091, 0, [(1, 8092)]⟩ (.updActual 8092) = some 8092 ∧
